@@ -72,7 +72,7 @@ class C12(Machine):
                  'semicoarsening': True, 'linerelaxation': True,
                  'tol': rng.choice([1e-7, 1e-8]), 'maxit': 60, 'verb': 0}
         if rng.random() < 0.5:
-            sopts['tol_gradient'] = rng.choice([1e-5, 1e-6])
+            sopts['tol_gradient'] = rng.choice([1e-3, 1e-4, 1e-5])
         gridding, grid2 = 'same', None
         if rng.random() < 0.2:
             gridding = 'input'
@@ -208,9 +208,14 @@ class C12(Machine):
         ctx.fresh = {}
         ctx.nobj = 0
         ctx.kinds = []
-        thr = 1e3 * max(cfg['solver_opts']['tol'],
-                        cfg['solver_opts'].get('tol_gradient', 0))
-        ctx.thr = thr
+        # forward quantities are solved to `tol`, adjoint-type quantities to
+        # `tol_gradient`; on the unchanged tree they are bit-identical to a
+        # fresh simulation (probe `differs_within_threshold` stays 0), the
+        # thresholds only leave room for legitimate warm starts
+        tolf = cfg['solver_opts']['tol']
+        ctx.thr_f = 1e2 * tolf
+        ctx.thr_g = 1e2 * cfg['solver_opts'].get('tol_gradient', tolf)
+        ctx.thr = ctx.thr_f
         fdir = os.path.join(ctx.scratch, 'files') if cfg['file_dir'] \
             else None
         with vclock.installed(ctx.clock, ctx.stats), \
@@ -323,16 +328,18 @@ class C12(Machine):
             m = ~np.isnan(b)
             den = np.linalg.norm(b[m]) if m.any() else 0.0
             dif = np.linalg.norm(a[m] - b[m]) if m.any() else 0.0
-            if dif <= ctx.thr * den:
+            thr = ctx.thr_g if quantity in ('gradient', 'jvec', 'jtvec') \
+                else ctx.thr_f
+            if dif <= thr * den:
                 ctx.stats.probe('differs_within_threshold')
                 return
             rel = dif / den if den else np.inf
         else:
-            rel = np.inf
+            rel, thr = np.inf, 0
         raise Violation(
             cls, f'{what} differs from a fresh simulation with the same '
             f'model, survey and options: relative difference {rel:.3e} '
-            f'(threshold {ctx.thr:.1e})', quantity=quantity, op=opk)
+            f'(threshold {thr:.1e})', quantity=quantity, op=opk)
 
     def _check_state(self, ctx, cfg, obj, opk):
         """What the object reports without being asked to compute."""
@@ -343,7 +350,7 @@ class C12(Machine):
             m = ~np.isnan(syn)
             den = np.linalg.norm(want[m & ~np.isnan(want)])
             if np.isnan(want[m]).any() or \
-                    np.linalg.norm((syn - want)[m]) > ctx.thr * den:
+                    np.linalg.norm((syn - want)[m]) > ctx.thr_f * den:
                 raise Violation(
                     'history_dependence',
                     f'after {opk}: data.synthetic holds values that a fresh '
